@@ -82,7 +82,7 @@ def execute_worker(case):
     answers = [bool(t['ack']) for t in tasks] if synack else None
     try:
         res = workerloop.run(payload, quota=quota, synack=answers,
-                             count_ready=True)
+                             count_ready=True, timeout=20.0)
     except KeyError:
         raise
     labels = set()
